@@ -760,7 +760,23 @@ def generate():
                         "`LogStream::operator<<(const void*)`"))
     pre = [n for n in walk(body_of(ptr)) if n.get("kind") == "BinaryOperator" and n.get("opcode") == "="
            and strip(kids(n)[1]).get("kind") == "CharacterLiteral"]
-    out.append(bytes_def("pointerPrefix", bytes(int(strip(kids(n)[1])["value"]) for n in pre),
+    # the prefix is what ends up at buf[0], buf[1], ..: ordered by the subscript, not by the order of the statements
+    # (`buf[1] = 'x'; buf[0] = '0';` is the same prefix); the subscripts must be the literals 0..k-1 of one array
+    slots = {}
+    bases = set()
+    for n in pre:
+        lhs = strip(kids(n)[0])
+        if lhs.get("kind") != "ArraySubscriptExpr" or strip(kids(lhs)[1]).get("kind") != "IntegerLiteral":
+            raise ExtractError("operator<<(const void*): a prefix character is not stored as `buf[<literal>] = 'c'`")
+        idx = int(strip(kids(lhs)[1])["value"])
+        if idx in slots:
+            raise ExtractError("operator<<(const void*): prefix position %d is stored twice" % idx)
+        slots[idx] = int(strip(kids(n)[1])["value"])
+        bases.add(ref_name(kids(lhs)[0]))
+    if sorted(slots) != list(range(len(slots))) or len(bases) > 1:
+        raise ExtractError("operator<<(const void*): the prefix characters are not stored at positions 0..%d of one buffer (%s)"
+                           % (len(slots) - 1, sorted(slots)))
+    out.append(bytes_def("pointerPrefix", bytes(slots[i] for i in range(len(slots))),
                          "the characters stored in front of the hex digits"))
     dbl = the_function(ls, "operator<<", param_type="double")
     gd, ifd = numeric_guard(dbl, "operator<<(double)", "doubleFits")
